@@ -9,7 +9,10 @@ import (
 	"strings"
 
 	"github.com/f1bonacc1/process-compose/src/app"
+	"github.com/f1bonacc1/process-compose/src/command"
 	"github.com/f1bonacc1/process-compose/src/loader"
+	"github.com/f1bonacc1/process-compose/src/types"
+	"github.com/f1bonacc1/process-compose/src/verif"
 )
 
 // env: os.Expand (library model), loadProjectFromFile's text rewriting, getProcessEnvironment.
@@ -119,6 +122,15 @@ func (c *envC) Exec(op string) string {
 				return "err"
 			}
 			return Hex(prj.Processes["p"].Command)
+		case len(w) == 5 && w[0] == "launchenv":
+			glob, ok1 := pairs(w[1])
+			ownP, ok2 := pairs(w[2])
+			ownQ, ok3 := pairs(w[3])
+			key, ok4 := UnHex(w[4])
+			if !ok1 || !ok2 || !ok3 || !ok4 {
+				return "bad-op"
+			}
+			return c.launchEnv(glob, ownP, ownQ, key)
 		case len(w) == 7 && w[0] == "procenv":
 			name, ok := UnHex(w[1])
 			rep, err := strconv.Atoi(w[2])
@@ -160,6 +172,84 @@ func (c *envC) Exec(op string) string {
 		}
 		return "bad-op"
 	})
+}
+
+// launchEnv: what two processes of one project are handed as environment at every launch, on the
+// real runner (fake commands, cooperative scheduler): p is launched, q is launched, p fails and is
+// relaunched by its restart policy. The global environment is a slice with spare capacity, as a
+// merged or env_cmds-extended environment is. Result: the value of `key` seen by p#1, q#1, p#2.
+func (c *envC) launchEnv(glob, ownP, ownQ [][2]string, key string) string {
+	flat := func(ps [][2]string, spare int) []string {
+		l := make([]string, 0, len(ps)+spare)
+		for _, p := range ps {
+			l = append(l, p[0]+"="+p[1])
+		}
+		return l
+	}
+	h := &supH{}
+	h.reset("coarse", false)
+	mk := func(name string, own [][2]string, pol string) types.ProcessConfig {
+		return types.ProcessConfig{Name: name, ReplicaName: name, Command: "run " + name, Executable: "run", Args: []string{name},
+			Namespace: "default", Replicas: 1, LaunchTimeout: 5, DependsOn: types.DependsOnConfig{},
+			Environment: flat(own, 0), RestartPolicy: types.RestartPolicyConfig{Restart: pol, BackoffSeconds: 1}}
+	}
+	prj := &types.Project{Environment: flat(glob, 6), ShellConfig: &command.ShellConfig{ShellCommand: "sh", ShellArgument: "-c"},
+		Processes: map[string]types.ProcessConfig{"p": mk("p", ownP, types.RestartPolicyOnFailure), "q": mk("q", ownQ, types.RestartPolicyNo)}}
+	r, err := app.NewProjectRunner((&app.ProjectOpts{}).WithProject(prj).WithIsTuiOn(true))
+	if err != nil {
+		return "runner-error"
+	}
+	h.r = r
+	sc := scaleC{h: h}
+	if err := verif.S.Go("api", "main", func() { _ = r.Run() }); err != nil {
+		return "DIVERGED"
+	}
+	if q := sc.quiesce(); q != "" {
+		return q
+	}
+	for _, fc := range h.cmds {
+		if fc.alive && fc.name == "p" {
+			fc.exit(1)
+		}
+	}
+	if q := sc.quiesce(); q != "" {
+		return q
+	}
+	verif.S.TakeLog()
+	look := func(env []string) string {
+		val, found := "", false
+		for _, e := range env {
+			kv := strings.SplitN(e, "=", 2)
+			if len(kv) == 2 && kv[0] == key {
+				val, found = kv[1], true
+			}
+		}
+		if !found {
+			return "unset"
+		}
+		return Hex(val)
+	}
+	out := []string{}
+	np := 0
+	for _, fc := range h.cmds {
+		if fc.name == "p" {
+			np++
+			out = append(out, fmt.Sprintf("p%d=%s", np, look(fc.env)))
+		}
+	}
+	for _, fc := range h.cmds {
+		if fc.name == "q" {
+			out = append(out, "q1="+look(fc.env))
+		}
+	}
+	// end the scenario
+	for _, fc := range h.cmds {
+		if fc.alive {
+			fc.exit(0)
+		}
+	}
+	_ = sc.quiesce()
+	return strings.Join(out, " ")
 }
 
 func encPairs(ps [][2]string) string {
@@ -259,5 +349,16 @@ func (c *envC) Gen(r *rand.Rand, tier string, emit func(string)) {
 	for k := 0; k < m; k++ {
 		emit(fmt.Sprintf("procenv %s %d %s %s %s %s", Hex([]string{"p", "web", "db-1"}[r.Intn(3)]), r.Intn(12),
 			encPairs(layer()), encPairs(layer()), encPairs(layer()), Hex(keys[r.Intn(len(keys))])))
+	}
+	// the environment each of two processes is handed at every launch (first launches and a relaunch by policy)
+	for k := 0; k < m/10+5; k++ {
+		g, a, b := layer(), layer(), layer()
+		if k%3 == 0 {
+			// each process has a variable of its own under one key
+			a = append(a, [2]string{"VT_OWN", "of-p"})
+			b = append(b, [2]string{"VT_OWN", "of-q"})
+		}
+		key := append(keys, "VT_OWN")[r.Intn(len(keys)+1)]
+		emit(fmt.Sprintf("launchenv %s %s %s %s", encPairs(g), encPairs(a), encPairs(b), Hex(key)))
 	}
 }
